@@ -3,6 +3,7 @@ import Rare.Drv.C11F64
 import Rare.Drv.C08Fmt
 import Rare.Spec.C11Hf
 import Rare.Drv.C11R4
+import Rare.Drv.C11Log
 /-!
 C11 ops: the shared `expr` op, plus
 
@@ -17,6 +18,8 @@ arbitrary bytes and be as large as `bufio.Scanner`'s limits).  Answer: `ok val=<
   fmt <format hex> <operands hexlist>    `{format …}` = `fmt.Sprintf` on string operands (`Rare/Drv/C08Fmt.lean`)
 
   case / path / rt64 / expr with the full `upper` / `lower`: round-4 ops, see `Rare/Drv/C11R4.lean`
+
+  lg / pw / spec ln|log10: round-4b ops, see `Rare/Drv/C11Log.lean`
 
   spec hf <value hex>     `{hf value}` against the SPECIFICATION (not the model of the code): the rendering keeps
                           the sign, so `-Inf` must print `-Inf`.  The code prints `Inf` (known finding, see
@@ -58,6 +61,9 @@ def handle (args : List String) : String :=
     | some key, some content, some pre => lookupFile fn key content pre
     | _, _, _ => "bad-args")
   | _ =>
+    match Rare.Drv.C11Log.handle args with
+    | some a => a
+    | none =>
     match Rare.Drv.C11R4.handle args with
     | some a => a
     | none =>
